@@ -9,9 +9,43 @@ SPEC = {
         {"name": "san", "harness": "C05_derived.cpp", "config": "san", "gen": True, "args": ["--reduced"], "deadline": _DL},
         {"name": "fast", "harness": "C05_derived.cpp", "config": "fast", "gen": True, "deadline": _DL},
     ],
-    "technique": "exhaustive enumeration of built / parsed packets and 16-bit word sweeps, judged by an independent reference dissector and by libpcap filter programs",
-    "rule": "",
-    "claim": "",
-    "note": "",
-    "assumptions": [],
+    "technique": ("bounded exhaustive enumeration of built and parsed packets plus complete 16-bit word sweeps on the real serializer, every wire image judged by an "
+                  "independent reference dissector (mc/ref/dissect.hpp) and by libpcap filter programs"),
+    "rule": ("G: every grammar packet (hand-written stacks covering every class and layer adjacency + every generated (class, setter, sample) variant; quick 3, thorough all "
+             "samples per setter), each also with a 5- and a 6-byte payload under its innermost layer. X: 46 checksum-carrying stack shapes (eth/ip/tcp, eth/ip/udp, ip/icmp, "
+             "eth/ipv6/{tcp,udp,icmpv6}, IP options, TCP options, IPv6 extension headers, 802.1Q, QinQ, 802.1Q without padding, dot3/snap and dot3/llc/snap, SLL, loopback, PPPoE "
+             "session + PPP, MPLS x1/x2, ICMP / ICMPv6 errors with RFC 4884 extension structure and/or length octet, RadioTap with and without FCS over 802.11 data / QoS data / "
+             "beacon, ip-in-ip, 6in4, 4in6, 6in6, AH, VXLAN) x payload sizes {0..9,17..19,25..27,45..47,100,127..133 (thorough: 255,256,1471..1473,9000)} + the sizes around the "
+             "65535-byte limit; ladders: every IPv6 extension header data size 0..24 x {hop-by-hop, destination, routing} x 4 contexts, fragment headers, TCP and IP option data "
+             "sizes 0..38, AH ICV sizes, ICMP{3,11,12}/ICMPv6{3} x original datagram sizes around the 4/8-byte rounding and the 128-byte minimum x {extension, length octet}, every "
+             "tag-writing parent (EthernetII, Dot1Q, SNAP, SLL, IP, IPv6, IPv6+ext, AH, Loopback, LLC, MPLS) preset with a wrong tag in front of every child class libtins has a tag "
+             "for, Ethernet payload sizes 0..64 x {raw, ip/udp, dot1q, dot1q without padding, QinQ}, EAPOL / Dot3 / PPPoE / RadioTap bodies of 8 sizes. S: for every shape one 16-bit "
+             "word swept through ALL 65536 values in stage 'fast' - a payload word with an even payload length, a payload word straddling the zero-padded last byte of an odd "
+             "payload length, the IPv4 identification (header checksum), a word inside the first ICMP extension object - 250 sweeps; stage 'san' repeats the sweeps on every 251st "
+             "value + 13 boundary values + the values computed (with the reference sum) to drive each checksum field to 0x0000 / 0xffff and their neighbours. P: every wire seed "
+             "of the corpus (layer suffixes of all grammar packets + hand-written wire seeds) parsed by its entry point and re-serialized. "
+             "Oracle 1, reference dissector: reads the wire from the link type; per layer compared with the object that was serialized: header-length fields (IPv4 ihl, TCP data "
+             "offset, IPv6 extension chain with every Hdr Ext Len, RadioTap it_len, AH length) = real header end; length fields (IPv4 tot_len, IPv6 payload_length, UDP length, 802.3 "
+             "length, PPPoE payload_length, EAPOL length, RFC 4884 length octet, ND option lengths, MLDv2 record count) = bytes governed; the protocol named by every next-protocol tag "
+             "(EtherType in EthernetII / 802.1Q / SNAP / SLL incl. PPPoE discovery vs session and QinQ, IPv4 protocol, IPv6 next-header chain incl. 59 when nothing follows, AH next "
+             "header, 802.2 SAPs for STP, loopback family, MPLS bottom-of-stack + first nibble) = class of the next layer whenever libtins has a tag for that class; Ethernet II frames "
+             ">= 60 bytes with all-zero padding and no padding beyond 60 + 4 per 802.1Q tag; checksums by an own RFC 1071 sum (64-bit accumulator, big-endian words) - IPv4 header, "
+             "TCP / UDP (never 0) / ICMPv6 with own pseudo header when directly inside IPv4 / IPv6 (also behind extension headers), ICMP, RFC 4884 extension structure (+ version, "
+             "object lengths, object count, zero fill of the original datagram), RadioTap FCS by a bitwise CRC-32. "
+             "Oracle 2, libpcap: pcap_open_dead(DLT of the root) + pcap_compile + pcap_offline_filter of predicates over the values that were set (ether src/dst/proto, vlan N, mpls N, "
+             "pppoes N / pppoed, ip / ip6 / arp, ip src/dst, ip proto, ip[2:2], ip[0]&0xf, ip[8], tcp/udp src/dst port, tcp[12], tcp[13], udp[4:2], icmp[icmptype], icmp[icmpcode], "
+             "ip6 src/dst, ip6[4:2], ip6 proto, ip6 protochain, ip6[40], wlan addr1, wlan type/subtype, stp): must match; the same predicate with a neighbouring value: must not match. "
+             "distinct_nontrivial = distinct (stack, per-layer header_size/trailer_size vector)."),
+    "claim": ("Inside the stated families every packet is serialized and judged; every one of the 65536 values of each swept word is evaluated (fast stage), so the one's-complement "
+              "sums pass through every residue, both folds and the UDP computed-zero case in every stack shape. A derived field that is wrong for any of these packets is reported."),
+    "note": ("Trusted: mc/ref/dissect.hpp (no libtins code; protocol numbers from IEEE/IANA), libpcap 1.10 as second opinion, object getters for the values that were set (C04/C15). "
+             "Not stricter than the statement: tags are judged only in front of a class libtins has a tag for (RawPDU / unknown classes keep the user's value; EthernetII / Dot1Q / IP "
+             "without payload write 0; LLC derives SAPs only for STP; MPLS S=0 in front of another label is the user's default); transport checksums only directly inside IPv4 / IPv6 "
+             "(behind AH, in fragments and as root layer they are counted, not judged); version nibbles, ARP address lengths, SNAP OUI are user fields; layers the wire format cannot "
+             "express are counted as unrepresentable_layers (TCP / IP header > 60 bytes, AH ICV not a multiple of 4, RFC 4884 original datagram > 255 units, 802.3 payload >= 1536, "
+             "ND options / MLDv2 aux data of non-multiple sizes) and skipped; Dot3 frames are not padded by libtins and not required to be. Root IP with source 0.0.0.0 (routing "
+             "table), PPI / PKTAP (not serializable), packets > 65535 bytes and empty packets are skipped and counted."),
+    "assumptions": ["builder alphabets stay within wire-representable sizes; unrepresentable layers are counted and not judged",
+                    "the pseudo header of TCP/UDP/ICMPv6 behind an IPv6 routing header uses the destination address of the IPv6 header (libtins has no notion of the final destination)",
+                    "DLT_NULL family values are read in host byte order; AF_INET6 = 10 and AF_LLC = 26 (Linux values) are accepted next to the BSD values 24/28/30"],
 }
